@@ -2,7 +2,8 @@
    All statements are for every ring degree N >= 1, every k, every key, every accumulator, every TGSW rows and
    every decomposition layout; congruences are coefficient-wise modulo 2^32 (eqNm). *)
 From Coq Require Import ZArith List Lia.
-From TV Require Import Base.Int32 Ring.NegaRing Model.Lwe Model.Poly Model.Tlwe Model.Decomp Model.Tgsw Proofs.Tlwe Proofs.Tgsw.
+From TV Require Import Base.Int32 Ring.NegaRing Model.Lwe Model.Poly Model.Tlwe Model.Decomp Model.Tgsw Model.Bootstrap
+  Proofs.Tlwe Proofs.Decomp Proofs.Tgsw Proofs.Gadget Proofs.BlindRotate Proofs.BootKey.
 Import ListNotations.
 Local Open Scope Z_scope.
 
@@ -26,6 +27,43 @@ Theorem C09_extprod_phase : forall N, (0 < N)%nat -> forall key k l B C acc,
          (rows_sum N (fun c => ofl (tlwe_phase key c)) (tlwe_decomp l B acc) C).
 Proof. exact extprod_phase. Qed.
 Print Assumptions C09_extprod_phase.
+
+(* the external product multiplies the message: rows = encryptions of zero plus m times the gadget (tGswAddMuIntH), every integer m *)
+Theorem C09_extprod_multiplies_message : forall N, (0 < N)%nat -> forall key k, wf_tkey N k key -> forall l B, valid_layout l B ->
+  forall m Z0 acc, wf_tsample N k acc -> Forall (wf_tsample N k) Z0 -> length Z0 = (S k * l)%nat ->
+  eqNm N (PHv N key (extprod l B (add_muint_h l B m Z0) acc))
+         (vadd (vscale m (vsub (PHv N key acc) (PHv N key (err_sample l B acc)))) (rows_sum N (PHv N key) (tlwe_decomp l B acc) Z0)).
+Proof. exact extprod_message. Qed.
+Print Assumptions C09_extprod_multiplies_message.
+
+(* analytic bound, worst-case form: an encryption of a bit s with row noises bounded by eta acts on every accumulator like s up to
+   beta = (k+1) l N (Bg/2) eta + (1 + k N) 2^(32 - l Bgbit)   (binary ring key) *)
+Theorem C09_extprod_error_bound : forall N, (0 < N)%nat -> forall key k, wf_tkey N k key -> Forall (Forall (fun x => x = 0 \/ x = 1)) key ->
+  forall l B, valid_layout l B -> forall s, s = 0 \/ s = 1 -> forall Z0, Forall (wf_tsample N k) Z0 -> length Z0 = (S k * l)%nat ->
+  forall (e : nat -> vec) eta, (forall p, (p < S k * l)%nat -> eqNm N (PHv N key (nth p Z0 [])) (e p)) ->
+  (forall p j, (p < S k * l)%nat -> (j < N)%nat -> Z.abs (e p j) <= eta) -> 0 <= eta ->
+  acts_like N key k l B (add_muint_h l B s Z0) s (Eg N key k l B s e) (beta N k l B eta).
+Proof. exact gadget_sample_acts_like. Qed.
+Print Assumptions C09_extprod_error_bound.
+
+(* one CMux step *)
+Theorem C09_cmux_phase : forall N, (0 < N)%nat -> forall key k, wf_tkey N k key -> forall l B g s E beta a acc,
+  acts_like N key k l B g s E beta -> wf_tsample N k acc -> (a < 2 * N)%nat ->
+  exists acc' err, mux_rotate l B g (Z.of_nat a) acc = Some acc' /\ wf_tsample N k acc' /\
+    eqNm N (PHv N key acc') (vadd (Shn N (a * Z.to_nat s) (PHv N key acc)) err) /\ (forall j, (j < N)%nat -> Z.abs (err j) <= beta).
+Proof. exact cmux_phase. Qed.
+Print Assumptions C09_cmux_phase.
+
+(* blind rotation: for every n, every exponent vector in [0,2N)^n (0 and 2N-1 included; zero exponents are skipped), the
+   accumulator phase is multiplied by X^(sum_i a_i s_i), up to an error of sup norm at most (executed steps) * beta *)
+Theorem C09_blind_rotate_phase : forall N, (0 < N)%nat -> forall key k, wf_tkey N k key -> forall l B bk ss beta,
+  good_key N key k l B bk ss beta -> 0 <= beta ->
+  forall (bara : list nat) acc, length bara = length bk -> Forall (fun a => (a < 2 * N)%nat) bara -> wf_tsample N k acc ->
+  exists accf err, blind_rotate l B bk (map Z.of_nat bara) acc = Some accf /\ wf_tsample N k accf /\
+    eqNm N (PHv N key accf) (vadd (Shn N (expo bara ss) (PHv N key acc)) err) /\
+    (forall j, (j < N)%nat -> Z.abs (err j) <= steps bara * beta).
+Proof. exact blind_rotate_phase. Qed.
+Print Assumptions C09_blind_rotate_phase.
 
 Example C09_nonvacuous :
   wf_tkey 2 1 [[1;1]] /\ wf_tsample 2 1 [[5;6];[7;8]] /\ Forall (wf_tsample 2 1) (tgsw_trivial 1 2 2 16 [1;0]) /\
